@@ -240,6 +240,8 @@ type vProbe struct {
 	objs      []Subscription
 	closing   []bool
 	overlap   bool // a subscription was made while an earlier one was still live
+	maxLive   int  // the largest number of simultaneously live subscriptions seen
+	yieldSub  bool // vYield inside SubscribeWithContext (widens the window for concurrent subscribers)
 	cold      bool
 	itemCtx   bool // attach a per-item marker to the context of each Next
 }
@@ -257,6 +259,9 @@ func (p *vProbe) register(ctx context.Context, d Observer[int64]) (int, func()) 
 	}
 	p.subs++
 	p.live++
+	if p.live > p.maxLive {
+		p.maxLive = p.live
+	}
 	p.closing = append(p.closing, false)
 	p.ctxs = append(p.ctxs, ctx)
 	p.dests = append(p.dests, d)
@@ -278,6 +283,9 @@ func (p *vProbe) SubscribeWithContext(ctx context.Context, d Observer[int64]) Su
 	i, teardown := p.register(ctx, d)
 	sub := NewSubscription(teardown)
 	p.objs = append(p.objs, sub)
+	if p.yieldSub {
+		vYield()
+	}
 	if p.scripts != nil {
 		if i < len(p.scripts) {
 			for _, st := range p.scripts[i] {
